@@ -398,6 +398,10 @@ class ConcreteCtx:
     def appended(self, old, file):
         return self.out(file)[len(old.out(file)):]
 
+    def ghost_seq(self, name, elem="int", concrete=None, default=None):
+        v = concrete() if concrete is not None else None
+        return v if v is not None else (list(default) if default is not None else [])
+
     def ghost_segments(self, file, names, concrete=None, optional=False):
         app = self.out(file)[len(self._old.out(file)):]
         if optional and len(app) == 0:
